@@ -114,6 +114,14 @@ class VTwo(_FloatOp):
         return FloatDataType(data.data * factor + addend)
 
 
+class VKwMix(_FloatOp):
+    """data * factor + offset: an ordinary parameter with a default next to a keyword-only parameter without one."""
+
+    def _process_logic(self, data, factor: float = 2.0, *, offset: float):
+        _log("VKwMix", factor=factor, offset=offset)
+        return FloatDataType(data.data * factor + offset)
+
+
 class VFive(_FloatOp):
     """data * factor + addend + offset + gain + bias: five parameters, none with a default."""
 
